@@ -35,12 +35,26 @@ Print Assumptions C07_nothing_less.
 (* and from a fresh directory both hold after every history (Clean and Live0 in C01_from_fresh) *)
 Example C07_nonvacuous := StoreHist.toy_run_clean.
 
-(* concurrent clause: at the end of every schedule of every error-free concurrent program (from a
-   directory without orphans) the CAS directory holds exactly the referenced blobs *)
+(* concurrent clause: at the end of every schedule of every concurrent program (from a directory
+   without orphans) the CAS directory holds exactly the referenced blobs, provided no blob path is
+   obstructed (bad, the fault parameter of the concurrent model, is empty) or no call of the run
+   returned an I/O error: a failed deletion leaves its blob behind.  Failing checkpoints (ckbad) do
+   not matter.  "Nothing less" (every referenced blob is present) holds with arbitrary faults: C04. *)
 Theorem C07_exact_at_quiescence_concurrent :
-  forall H cmp nops thr0 cas0, CasProps.ConcSetting.ConcSetting H cmp thr0 cas0 ->
-  forall g, cas0 = [] -> ConcInv.reachable H cmp nops thr0 cas0 g -> Conc.all_finished g = true ->
+  forall H cmp nops bad ckbad thr0 cas0, CasProps.ConcSetting.ConcSetting H cmp thr0 cas0 ->
+  forall g, cas0 = [] -> ConcInv.reachable H cmp nops bad ckbad thr0 cas0 g -> Conc.all_finished g = true ->
+  (forall h, bad h = false) \/
+  (forall t ts, Conc.tget (Conc.g_thr g) t = Some ts -> ~ In Conc.CErr (Conc.t_res ts)) ->
   forall h, sm_get lex_cmp (Conc.g_cas g) h <> None
             <-> (exists k it, In (k, it) (km (Conc.g_idx g)) /\ ihash it = h).
 Proof. exact CasProps.C04.C04_C07_quiescent_exact. Qed.
 Print Assumptions C07_exact_at_quiescence_concurrent.
+
+Theorem C07_exact_at_quiescence_concurrent_nofaults :
+  forall H cmp nops bad ckbad thr0 cas0, CasProps.ConcSetting.ConcSetting H cmp thr0 cas0 ->
+  CasProps.ConcSetting.NoFaults bad ckbad ->
+  forall g, cas0 = [] -> ConcInv.reachable H cmp nops bad ckbad thr0 cas0 g -> Conc.all_finished g = true ->
+  forall h, sm_get lex_cmp (Conc.g_cas g) h <> None
+            <-> (exists k it, In (k, it) (km (Conc.g_idx g)) /\ ihash it = h).
+Proof. exact CasProps.C04.C04_C07_quiescent_exact_nofaults. Qed.
+Print Assumptions C07_exact_at_quiescence_concurrent_nofaults.
